@@ -735,6 +735,14 @@ def order_leak_sites(ctx, crates=('pie', 'pie_graph')):
                 leak = True
             elif c.qname == 'std::fmt::Debug::fmt' and c.self_ty and _is_hash_ty(c.self_ty) and not b.d.get('from_expansion'):
                 leak = True
+            elif F.callee_body(c) is not None and F.callee_body(c).crate in crates and any(_is_hash_ty(x) for x in c.gargs):
+                # a seeded hash container handed to a local function as the value of a generic parameter (`fn schedule(tasks: impl IntoIterator<..>)`):
+                # whatever that function iterates, it iterates in hash order - the order escapes through the call
+                cb_ = F.callee_body(c)
+                gens = list(cb_.generics)
+                if any(_is_hash_ty(x) and i < len(gens) and not gens[i].startswith("'") for i, x in enumerate(c.gargs)) and any(
+                        a[0] in ('c', 'm') and _is_hash_ty(b.local_ty(a[1][0]).lstrip('&').replace('mut ', '', 1)) for a in c.args):
+                    leak = True
             if leak:
                 out.append((b, c))
     return out
@@ -801,5 +809,8 @@ def rule_determinism(ctx):
             # a sort whose key / comparator was decided by its own rule: Q1-comparator (the queue) or N3-sort-key (the reordering step)
             known = any(o['ok'] and o['rule'] in ('Q1-comparator', 'N3-sort-key') and (o['key'] == b.path or o['key'].startswith(b.path + '#')) for o in R.obs)
             elem = c.gargs[0] if c.gargs else ''
-            plain = c.qname in ('core::slice::sort', 'core::slice::sort_unstable') and elem in ('u32', 'u64', 'usize')
+            # a plain sort of values with an intrinsic total order is deterministic whatever order they arrived in
+            plain = c.qname in ('core::slice::sort', 'core::slice::sort_unstable') and elem in ('u8', 'u16', 'u32', 'u64', 'u128', 'usize', 'i8', 'i16', 'i32', 'i64', 'i128', 'isize', 'char', 'bool',
+                                                                                               'std::string::String', '&str', 'std::ffi::OsString', 'std::path::PathBuf', 'std::vec::Vec<u8>', '&[u8]',
+                                                                                               'std::boxed::Box<str>', 'std::boxed::Box<[u8]>')
             R.ob('N3-sorts', b.path + '#' + c.name, known or plain, 'sort over unique ranks' if known or plain else 'sort %s over %s is not one of the analysed rank sorts' % (c.qname, elem), ctx.where(b, c.bb), props=P)
